@@ -14,6 +14,7 @@ Drift(ok, cls) == IF ok THEN TRUE ELSE Report("DRIFT", cls)
 IsEvent(e) == l <= Len(TraceLog) /\ TraceLog[l].ev = e /\ l' = l + 1
 \* content-coding names are case-insensitive: "GZIP" and "Br" declare gzip and br
 Supported == {"gzip", "deflate", "br", "GZIP", "Br"}
+Builds(fs) == \E k \in 1..Len(fs) : fs[k].act # "unknown"
 HasBad(doc) == \E i \in 1..Len(doc) : \E j \in 1..Len(doc[i].us) : doc[i].us[j] = "~!~"
 \* documents prone to the known chunk dependence of C03
 DeclWithMarkup(doc) == \E o \in 1..Len(doc) : doc[o].k = "copen" /\ \E x \in (o + 1)..Len(doc) : doc[x].k \in TagLike
@@ -25,12 +26,16 @@ DiffClass(doc, d) == IF ~d.complete THEN "output_stream_incomplete"
 TracePipe ==
   /\ IsEvent("pipe")
   /\ LET e == TraceLog[l] IN
-     /\ IF e.enc \in Supported
-        THEN /\ Judge(e.is_empty = (e.fs = <<>>), "gate_wrong")
+     /\ IF e.enc \in Supported /\ Builds(e.fs)
+        THEN /\ Judge(~e.is_empty, "gate_wrong")
              /\ \A k \in 1..Len(e.diffs) : Report("VERDICT", DiffClass(e.doc, e.diffs[k]))
+        ELSE IF ~Builds(e.fs)
+        \* nothing to build (empty list, unknown actions only): no chain whatever the encoding, every byte passes untouched
+        THEN /\ Judge(e.is_empty, "gate_wrong")
+             /\ Judge(e.untouched /\ e.plain_out = e.body, "inert_chain_touches_body")
         ELSE /\ Judge(e.enc = "none" \/ e.is_empty, "unsupported_encoding_filtered")
              /\ Judge(e.untouched, "unsupported_encoding_filtered")
-     /\ Drift(HasBad(e.doc) \/ e.plain_out = Render(e.doc, e.fs, RunWhole(e.doc, e.fs), 1), "plain_output")
+     /\ Drift(HasBad(e.doc) \/ ~Builds(e.fs) \/ e.plain_out = Render(e.doc, e.fs, RunWhole(e.doc, e.fs), 1), "plain_output")
 TracePanic == IsEvent("panic") /\ Report("VERDICT", "panic")
 TraceNext == TracePipe \/ TracePanic
 TraceSpec == l = 1 /\ [][TraceNext]_l
